@@ -210,7 +210,7 @@ func reps(r *kit.Rand, n int) []int {
 func gen(w *kit.Out, r *kit.Rand, tier string) {
 	nrep, nrand, nbound := 2, 4, 4
 	if tier == "thorough" {
-		nrep, nrand, nbound = 3, 40, 1000
+		nrep, nrand, nbound = 3, 24, 1000
 	}
 	bt := boundary()
 	// quick: a seeded subset of the boundary table (the corpus pins the rest); thorough: all of it
